@@ -602,6 +602,18 @@ def evaluate(cases: list[dict], ch: Channel) -> None:
                    or "uuid" in view["tk"].replace(":", ",").split(",") and "uuid" not in stored_tk)
         if changed:
             ch.nontrivial.add(nontrivial_key(r, c))
+        # how the stored segment addresses its samples, and where its (now stale) data_offset
+        # would point in the served segment if post_encode did not recompute it
+        stfhd = mp4walk.find(lay["traf"], "tfhd")
+        strun = mp4walk.find(lay["traf"], "trun")
+        moof_file_pos = t.segs[r["k"]][0] + lay["moof"].start
+        sb = stfhd["base_data_offset"]
+        ch.count("stored-base:" + ("moof-relative" if sb is None else "explicit=moof" if sb == moof_file_pos
+                                    else "explicit<moof" if sb < moof_file_pos else "explicit>moof"))
+        stale = int(model["moof"].split(":")[0]) + (strun["data_offset"] or 0)
+        p0 = int(model["pstart"])
+        ch.count("stale-data-offset:" + ("exact" if stale == p0 else "before-mdat-payload" if stale < p0
+                                          else "inside-mdat" if stale < p0 + int(model["plen"]) else "behind-mdat"))
         for flag, name in ((r["n_emsg"] > 0, "emsg-inserted"), (lay["has_sidx"], "sidx-removed"),
                            (not lay["has_tfdt"], "tfdt-inserted"), (model.get("tfdtv") == "1", "tfdt-64bit"),
                            (c["ov"].get("bugs") == "saio", "bugs=saio"), (t.enc and piffs_of(c["ov"]) > 0, "piff-inserted"),
